@@ -229,8 +229,10 @@ func (w *srvWorld) checkC08(active0 string) {
 			}
 		}
 		for _, c := range w.causes {
-			if c.Begin < settled && !c.Optional && c.Begin != w.eofFaultSeq {
-				proven = false // another stop cause came first, or raced with the reader
+			if c.Begin < settled && c.Begin != w.eofFaultSeq && !(c.Optional && w.servedAfter(c)) {
+				// another stop cause came first, or raced with the reader (a failed
+				// Send counts unless the server demonstrably survived it)
+				proven = false
 			}
 		}
 		for seq := msg.Arrive + 1; seq < len(r.Sim.Events) && seq < fc; seq++ {
@@ -401,7 +403,7 @@ func (w *srvWorld) restartProbe(active0 string, sEnd, pEnd *End) {
 
 // servedAfter reports whether the server went on serving after the (optional)
 // cause c: after the first quiescent point following c, and before WaitStatus
-// returned, a handler was entered or the server passed another record to Send.
+// returned, a call's handler was entered or the server passed another record to Send.
 func (w *srvWorld) servedAfter(c stopCause) bool {
 	qp := -1
 	for _, q := range w.qpoints {
@@ -415,7 +417,9 @@ func (w *srvWorld) servedAfter(c stopCause) bool {
 	}
 	for _, msg := range w.msgs {
 		for _, m := range msg.Members {
-			if m.Enter > qp && m.Enter < w.waitSeq {
+			// (notifications received before a stop are still run after it: only a
+			// call proves that the server was dispatching)
+			if m.Kind == mCall && m.Enter > qp && m.Enter < w.waitSeq {
 				return true
 			}
 		}
